@@ -66,14 +66,19 @@ class PybindWrapper:
 
         Control characters and Unicode line separators become octal escapes of
         their UTF-8 bytes (at most three digits each, so they cannot absorb a
-        following character the way `\\x` escapes do); everything else, including
-        other non-ASCII text, is written as is.
+        following character the way `\\x` escapes do), a `?` after a `?` becomes
+        `\\?` (no trigraphs); everything else, including other non-ASCII text, is
+        written as is.
         """
         simple = {'\\': '\\\\', '"': '\\"', '\n': '\\n', '\t': '\\t', '\r': '\\r'}
         escaped = []
         for char in text:
             if char in simple:
                 escaped.append(simple[char])
+            elif char == '?' and escaped and escaped[-1].endswith('?'):
+                # "??" must not reach the compiler: before C++17 `??/`, `??=`, ...
+                # are trigraphs (`??/"` would even escape the closing quote).
+                escaped.append('\\?')
             elif ord(char) < 0x20 or 0x7f <= ord(char) <= 0x9f or char in '\u2028\u2029':
                 escaped.extend('\\{:03o}'.format(byte)
                                for byte in char.encode('UTF-8'))
